@@ -162,7 +162,7 @@ func C01(r *drv.Run) {
 	if !quick(r) {
 		nprog, ntext = 150000, 16
 	}
-	r.Rule = "programs: seeded random over the core search language (literals, not, caseless, classes, anchors, in/not in, all loop forms greedy and fewest, or, groups, captures, back-references, inline subroutines incl. guarded recursion, set-to-pattern with/without predicate) + exhaustive small programs + seven commands of escaped literals behind a run of blanks that puts the 4096- and 8192-byte read boundary of the lexer right before, inside and right after every escape + every anchor, plain and negated, in eight small shapes on every text over {x, CR, LF, blank} up to length 5 (line ends written LF, CR LF and lone CR, also as the very last bytes); inputs derived from each program (sampled matches, prefixes, one-byte edits, concatenations, noise); plus a deep family: 8 fixed shapes (greedy / lazy loop then literal, loop of a group with an optional part, recursion depth, recursion inside a loop, many matches, capture in a deep loop then back-reference, negated-list run) on structured inputs sized k = 10, 63..65, 127..129, 255..257, 511..513 (thorough: ..1400) repetitions, and 5 counted-loop shapes whose bounds are k = 15..17, 31..33, 63..65, 100, 127..129 (thorough: ..300) on inputs with k-1, k, k+1, 2k, 2k+1 repetitions; plus caseless literals beyond ASCII (every ordered pair of 26 letters from Greek / Latin-1 / Cyrillic / digraph folding orbits, alone, in a loop with an alternative, in a list; five words). Oracle: reference backtracker (ref/), cross-checked by Go regexp on the regular subset. Non-trivial = reference found >= 1 match AND the VM hook saw >= 1 resume from a saved choice point; distinct by (program, text). Four programs whose subroutines are DEFINED INSIDE other subroutines and call the enclosing one again (among them a bracketed-sum grammar), on every text over {a,b,c} up to length 7. One random program in six has some of its loops named (the name changes what is reported, not what is matched), and the counted-loop family has named between / at least forms. One random program in twenty is WIDE rather than deep: 9..300 captures / alternatives / list items / optional groups / inline subroutines / stored patterns / anchored lines, counts on both sides of 10, 16, 32, 64, 100, 128, 256, on texts holding matches, near misses and leftovers."
+	r.Rule = "programs: seeded random over the core search language (literals, not, caseless, classes, anchors, in/not in, all loop forms greedy and fewest, or, groups, captures, back-references, inline subroutines incl. guarded recursion, set-to-pattern with/without predicate) + exhaustive small programs + seven commands of escaped literals behind a run of blanks that puts the 4096- and 8192-byte read boundary of the lexer right before, inside and right after every escape + regex literals of ten to twelve plain groups with a back-reference to each group from 9 to 12 (10, the two-digit number ending in 0, among them) + every anchor, plain and negated, in eight small shapes on every text over {x, CR, LF, blank} up to length 5 (line ends written LF, CR LF and lone CR, also as the very last bytes); inputs derived from each program (sampled matches, prefixes, one-byte edits, concatenations, noise); plus a deep family: 8 fixed shapes (greedy / lazy loop then literal, loop of a group with an optional part, recursion depth, recursion inside a loop, many matches, capture in a deep loop then back-reference, negated-list run) on structured inputs sized k = 10, 63..65, 127..129, 255..257, 511..513 (thorough: ..1400) repetitions, and 5 counted-loop shapes whose bounds are k = 15..17, 31..33, 63..65, 100, 127..129 (thorough: ..300) on inputs with k-1, k, k+1, 2k, 2k+1 repetitions; plus caseless literals beyond ASCII (every ordered pair of 26 letters from Greek / Latin-1 / Cyrillic / digraph folding orbits, alone, in a loop with an alternative, in a list; five words). Oracle: reference backtracker (ref/), cross-checked by Go regexp on the regular subset. Non-trivial = reference found >= 1 match AND the VM hook saw >= 1 resume from a saved choice point; distinct by (program, text). Four programs whose subroutines are DEFINED INSIDE other subroutines and call the enclosing one again (among them a bracketed-sum grammar), on every text over {a,b,c} up to length 7. One random program in six has some of its loops named (the name changes what is reported, not what is matched), and the counted-loop family has named between / at least forms. One random program in twenty is WIDE rather than deep: 9..300 captures / alternatives / list items / optional groups / inline subroutines / stored patterns / anchored lines, counts on both sides of 10, 16, 32, 64, 100, 128, 256, on texts holding matches, near misses and leftovers."
 	r.Assumptions = []string{
 		"reference matcher (harness/ref) is the meaning of the pattern as written; it is cross-checked against Go regexp on the regular subset on every case",
 		"word start at end of input / word end at offset 0 / word end at end of input after a non-word byte are don't-care (either answer accepted)",
@@ -192,6 +192,7 @@ func C01(r *drv.Run) {
 	})
 	c01Anchors(r)
 	c01Padded(r)
+	c01TwoDigitRefs(r)
 	// subroutines DEFINED INSIDE other subroutines that call the enclosing one again (mutual recursion through a nested
 	// definition), on every text over {a,b,c} up to length 7 and on bracketed arithmetic
 	{
